@@ -470,8 +470,8 @@ PROP_META["C18"] = {
 }
 for nm in ("c18_stream_no_hint", "c18_stream_with_hint"):
     K(nm, "C18", M_STD, cfg="release", shape="BMC", cap=(900, 2400), cost=600, mem=14,
-      bound="a fixed symbolic stream of <= 6 bytes delivered in arbitrary chunks of 1..=2 bytes (<= 7 reads), failing with an "
-            "arbitrary error kind (4 kinds) at an arbitrary read or never",
+      bound="a stream of symbolic length <= 6 (concrete content) delivered in arbitrary chunks of 1..=2 bytes (<= 7 reads), "
+            "failing with an arbitrary error kind (4 kinds) at an arbitrary read or never; arbitrary size hint <= 8",
       outside="reads longer than 2 bytes (32 KiB buffer boundary); hash_file's OS half",
       enc=["generate_easy_std::hash_stream_common", "Generator::update", "Generator::finalize"])
 PROP_META["C19"] = {
@@ -487,9 +487,12 @@ K("c19_fnv_forms_agree", "C19", M_FNV, shape="BMC", bound="arbitrary state, <= 3
   enc=["PartialFNVHash::update", "update_by_iter", "AddAssign x3"], cap=(300, 600), cost=20)
 K("c19_roll_forms_agree", "C19", M_ROLL, shape="BMC", bound="ARBITRARY internal state, <= 3 bytes, all five update forms",
   enc=["RollingHash::update", "update_by_iter", "update_by_byte", "AddAssign x3"], cap=(300, 900), cost=60)
-K("c19_roll_value_from_new_k9", "C19", M_ROLL, cfg="release", shape="BMC", cap=(900, 2400), cost=600,
-  bound="from new(): every input of <= 9 bytes, value == definition over the trailing 7-byte window",
-  enc=["RollingHash::new", "update", "value"])
+for (kk, tiers, cap, cost) in [(2, ("quick", "thorough"), (600, 900), 60), (4, ("thorough",), (0, 1800), 600),
+                               (9, ("thorough",), (0, 2400), 2400)]:
+    K("c19_roll_value_from_new_k%d" % kk, "C19", M_ROLL, cfg="release", shape="BMC", tiers=tiers, cap=cap, cost=cost,
+      ladder="c19_roll_from_new" if kk > 2 else None, rung=kk,
+      bound="from new(): every input of <= %d bytes, value == definition over the trailing (zero padded) 7-byte window" % kk,
+      enc=["RollingHash::new", "update", "value"])
 
 
 def _gen_text(qs):
@@ -1075,3 +1078,13 @@ K("c08_ed_long_a_short_b_q", "C08", M_PA, fn="c08_ed_long_a_short_b", cfg="relea
   cap=(900, 0), cost=200, mem=10, shape="BMC",
   bound="|a| in {63,64} over 4 symbols, |b| <= 3 (top bits of the 64-bit vector, full-length strings)",
   enc=["BlockHashPositionArrayImplInternal::edit_distance_internal"], assumptions=[ASSUME_SYM, ASSUME_MASKS])
+
+K("c04_dual_capacity_bh2_short_tail", "C04", M_DUAL, cap=(900, 2400), cost=400, mem=14,
+  unwindset=alg_rules(n_text=42, n_verify=42) + dual_rules(n_in=42, n_rle=17), shape="BMC",
+  bound="dual parser, capacity class: '3::' + 29 run-free symbols + every byte string of <= 8 bytes (block hash 2 reaches and "
+        "exceeds 32 symbols raw, with runs that collapse)",
+  enc=["FuzzyHashDualData::from_bytes_with_last_index", "from_raw_form", "to_raw_form", "is_valid"])
+K("c11_dual_parser_valid_tail", "C11", M_DUAL, fn="c04_dual_capacity_bh2_short_tail", cap=(900, 2400), cost=400, mem=14,
+  unwindset=alg_rules(n_text=42, n_verify=42) + dual_rules(n_in=42, n_rle=17), shape="BMC",
+  bound="dual parser on the capacity class '3::' + 29 run-free symbols + <= 8 free bytes: Ok => is_valid, never panics",
+  enc=["FuzzyHashDualData::from_bytes_with_last_index"])
